@@ -290,8 +290,12 @@ def run_history(ctx, seed):
                 where = 'conn %d (%s of %s, v%d) still open after cluster.shutdown() and drain' % (c.sim_id, c.sim_creator, pname, proto)
                 installed = p is not None and (getattr(p, '_connection', None) is c or c in (getattr(p, '_connections', None) or []))
                 late = pw.installed_after_shutdown(c)
-                if pname == 'HostConnection' and c.sim_id in pw.pool_rec(p)['trash_at_shutdown'] and not installed:
-                    viol.append(('hostconnection-shutdown-never-closes-trash', where + ': it was in the pool\'s _trash when shutdown() was called'))
+                if pname == 'HostConnection' and p.is_shutdown and not installed and c in p._trash:
+                    viol.append(('old-connection-trashed-after-shutdown-left-open', where + ': _replace finished while shutdown() ran and put the replaced connection '
+                                 'into _trash after shutdown() had looked at it'))
+                elif pname == 'HostConnection' and p.is_shutdown and not installed and c.sim_id in pw.trashed:
+                    # it was seen in _trash and is not there any more: only shutdown()'s sweep removes an open connection from the trash
+                    viol.append(('hostconnection-shutdown-never-closes-trash', where + ': it was in the pool\'s _trash and shutdown() emptied the trash without closing it'))
                 elif pname == 'HostConnection' and late and c.sim_id not in pw.in_service and c.sim_creator == 'pool-replace' and p.is_shutdown:
                     viol.append(('replacement-installed-after-shutdown-left-open', where + ': _replace finished connecting while / after shutdown() ran and '
                                  'installed it (%s)' % ('it is still pool._connection' if installed else 'shutdown() then set _connection = None without closing it')))
@@ -342,8 +346,11 @@ def run(ctx):
     n = ctx.scale(900, 60000)
     budget = 44 if ctx.quick else 420
     base = ctx.seed * 1000003 + (ctx.worker or 0) * 100003
+    import time as _t
+    # wall-clock only bounds the amount of work (never a verdict); keep a minimum of work when start-up on a busy box ate the budget
+    t_end = _t.time() + max(15 if ctx.quick else 120, ctx.time_left(budget))
     for i in range(n):
-        if ctx.time_left(budget) < 0:
+        if _t.time() > t_end:
             ctx.note("stopped by time budget after %d histories" % i)
             break
         seed = base + i
